@@ -172,10 +172,10 @@ Qed.
 
 (* `return self;` of a primitive self returns the receiver's value *)
 Lemma return_self_returns_receiver_l : forall run hs fe t v arg st,
-  m_body (fe_meth fe) = [] -> m_ret (fe_meth fe) = ESelf -> m_void (fe_meth fe) = false ->
+  m_body (fe_meth fe) = [] -> m_ret (fe_meth fe) = ESelf -> m_void (fe_meth fe) = false -> int_ok v = true ->
   exists fr', run_method_g run hs fe t (PPrim v) arg st = inl (fr', v).
 Proof.
-  intros run hs fe t v arg st B R V. unfold run_method_g. rewrite B, R, V. simpl. eauto.
+  intros run hs fe t v arg st B R V I. unfold run_method_g. rewrite B, R, V. simpl. rewrite I. eauto.
 Qed.
 
 (* a call on a receiver whose type lies in a set TS of types that is closed under "a method of the type declares an
